@@ -269,7 +269,7 @@ func lsGet(key string, local bool) *fwface.NDNLPLinkService {
 	return l
 }
 
-type stateViolation struct{ msg string }
+type stateViolation struct{ key, msg string }
 
 type pktT = defn.Pkt
 
@@ -306,10 +306,15 @@ func runLS(key string, local bool, nThreads int, b []byte) uint32 {
 	}
 	if q > 0 || !st {
 		// the frame had an effect: then it must decode. The harness' own decode of the outer frame:
-		_, _, err := spec.ReadPacket(enc.NewBufferReader(append([]byte{}, b...)))
+		p, _, err := spec.ReadPacket(enc.NewBufferReader(append([]byte{}, b...)))
 		if err != nil {
 			full, _ := fwface.VerifC04Dump(l)
 			panic(stateViolation{msg: "frame that does not decode (" + err.Error() + ") changed state: queued=" + itoa(q) + " state=" + full})
+		}
+		if why := lpInvalidFragmentation(p); why != "" {
+			full, _ := fwface.VerifC04Dump(l)
+			panic(stateViolation{key: "LP frame with invalid fragmentation fields is not dropped cleanly (reassembly state or dispatch changed)",
+				msg: why + ", yet queued=" + itoa(q) + " state=" + full})
 		}
 	}
 	return sig
